@@ -20,8 +20,12 @@
  *         vbr    0 CBR, 1 VBR, 2 constrained VBR     fmt  0 float, 1 int16, 2 int24
  *         force  0 auto, 1 SILK only, 2 hybrid, 3 CELT only (OPUS_SET_FORCE_MODE)
  *         family 0 multitone 1 sweep 2 speech-like 3 band-limited noise 4 transients
- *         stereo 0 independent channels, 1 level difference, 2 level difference + inverted, 3 delayed copy
- *         aux    0, or the decoder's sampling rate / special options (unused = 0)
+ *         stereo 0 independent channels, 1 level difference, 2 level difference + inverted, 3 delayed copy, 4 dual mono
+ *         aux    decimal digits, 0 = none:  d0 OPUS_SET_FORCE_CHANNELS (1 mono, 2 stereo)   d1 decoder channels (1, 2; 0 = as
+ *                encoder; a mono decoder's output is compared with the down-mix (L+R)/2)   d2 decoder gain (1: +6 dB, 2: -6 dB
+ *                via OPUS_SET_GAIN; the reference is scaled alike)   d3 in-band FEC (1: FEC + 10 % expected loss, 2: FEC + 25 %)
+ *                d4 every 8 frames alternate (1: FORCE_MODE SILK/CELT, 2: bitrate / bitrate/3, 3: FORCE_CHANNELS 1/2)
+ *                d5 OPUS_SET_SIGNAL (1 voice, 2 music)
  *   All randomness comes from the seeds on the command line / in the configuration lines. */
 #ifdef HAVE_CONFIG_H
 #include "config.h"
@@ -180,6 +184,7 @@ typedef struct {
    int kind;          /* 0 single, 1 multistream (surround encoder), 2 projection */
    int mapfam;
    int Fs, ch, app, bw, bitrate, frame, cplx, vbr, fmt, force, family, stereo, aux;
+   int fc, dch, gainopt, fec, alt, sig;      /* digits of aux; dch = decoder channel count (resolved) */
    uint64_t sigseed;
 } Cfg;
 
@@ -196,7 +201,7 @@ static int codec_open(const Cfg *c, Codec *k, int *la)
    memset(k, 0, sizeof(*k));
    if (c->kind == 0) {
       k->e = opus_encoder_create(c->Fs, c->ch, c->app, &err); if (err) return err;
-      k->d = opus_decoder_create(c->Fs, c->ch, &err); if (err) return err;
+      k->d = opus_decoder_create(c->Fs, c->dch, &err); if (err) return err;
    } else if (c->kind == 1) {
       unsigned char mapping[256];
       k->me = opus_multistream_surround_encoder_create(c->Fs, c->ch, c->mapfam, &k->streams, &k->coupled, mapping, c->app, &err);
@@ -226,6 +231,16 @@ static int codec_open(const Cfg *c, Codec *k, int *la)
    if (c->bw) { if ((err = ECTL(OPUS_SET_BANDWIDTH(1100 + c->bw)))) return err; }
    if (c->force) { if ((err = ECTL(OPUS_SET_FORCE_MODE(999 + c->force)))) return err; }
    if (c->fmt == 1) { if ((err = ECTL(OPUS_SET_LSB_DEPTH(16)))) return err; }
+   if (c->fc) { if ((err = ECTL(OPUS_SET_FORCE_CHANNELS(c->fc)))) return err; }
+   if (c->sig) { if ((err = ECTL(OPUS_SET_SIGNAL(c->sig == 1 ? OPUS_SIGNAL_VOICE : OPUS_SIGNAL_MUSIC)))) return err; }
+   if (c->fec) { if ((err = ECTL(OPUS_SET_INBAND_FEC(1)))) return err; if ((err = ECTL(OPUS_SET_PACKET_LOSS_PERC(c->fec == 1 ? 10 : 25)))) return err; }
+   if (c->gainopt) {
+      opus_int32 g = c->gainopt == 1 ? 1536 : -1536, g0 = 0;
+      if (c->kind == 2) { if ((err = opus_projection_decoder_ctl(k->pd, OPUS_GET_GAIN(&g0)))) return err; }
+      err = c->kind == 0 ? opus_decoder_ctl(k->d, OPUS_SET_GAIN(g)) : c->kind == 1 ? opus_multistream_decoder_ctl(k->md, OPUS_SET_GAIN(g))
+                         : opus_projection_decoder_ctl(k->pd, OPUS_SET_GAIN(g0 + g));
+      if (err) return err;
+   }
    if ((err = ECTL(OPUS_GET_LOOKAHEAD(&v)))) return err;
    *la = (int)v;
    return 0;
@@ -249,14 +264,21 @@ static double fmax_of(const Cfg *c)
 /* run the real encoder and decoder over `nfr` frames; x, y are interleaved float buffers of nfr*frame*ch */
 static int roundtrip(const Cfg *c, Codec *k, const float *x, float *y, int nfr, int *modes, int *maxbw, long *bytes)
 {
-   int f, i, ch = c->ch, fs = c->frame, n = fs * ch, ret;
+   int f, i, ch = c->ch, fs = c->frame, n = fs * ch, nd = fs * c->dch, ret;
    unsigned char *pkt = (unsigned char *)malloc(1500 * 6 * 10 + 100);
    int maxpkt = 1500 * 6 * 10;
-   opus_int16 *s16 = (opus_int16 *)malloc(sizeof(opus_int16) * n);
-   opus_int32 *s24 = (opus_int32 *)malloc(sizeof(opus_int32) * n);
+   opus_int16 *s16 = (opus_int16 *)malloc(sizeof(opus_int16) * (n > nd ? n : nd));
+   opus_int32 *s24 = (opus_int32 *)malloc(sizeof(opus_int32) * (n > nd ? n : nd));
    *bytes = 0;
    for (f = 0; f < nfr; f++) {
-      const float *xf = x + (long)f * n; float *yf = y + (long)f * n;
+      const float *xf = x + (long)f * n; float *yf = y + (long)f * nd;
+      if (c->alt && c->kind == 0 && f % 8 == 0) {
+         int odd = (f / 8) % 2, e2 = 0;
+         if (c->alt == 1) e2 = opus_encoder_ctl(k->e, OPUS_SET_FORCE_MODE(odd ? MODE_CELT_ONLY : MODE_SILK_ONLY));
+         if (c->alt == 2) e2 = opus_encoder_ctl(k->e, OPUS_SET_BITRATE(odd ? c->bitrate / 3 : c->bitrate));
+         if (c->alt == 3) e2 = opus_encoder_ctl(k->e, OPUS_SET_FORCE_CHANNELS(odd ? 2 : 1));
+         if (e2) { free(pkt); free(s16); free(s24); return e2; }
+      }
       if (c->fmt == 1) for (i = 0; i < n; i++) s16[i] = (opus_int16)lrintf(xf[i] * 32768.f);
       if (c->fmt == 2) for (i = 0; i < n; i++) s24[i] = (opus_int32)lrintf(xf[i] * 8388608.f);
       if (c->kind == 0)
@@ -282,8 +304,8 @@ static int roundtrip(const Cfg *c, Codec *k, const float *x, float *y, int nfr, 
             got = c->fmt == 0 ? opus_projection_decode_float(k->pd, ex, ret, yf, fs, 0) : c->fmt == 1 ? opus_projection_decode(k->pd, ex, ret, s16, fs, 0) : opus_projection_decode24(k->pd, ex, ret, s24, fs, 0);
          free(ex);
          if (got != fs) { free(pkt); free(s16); free(s24); return got < 0 ? got : -100; }
-         if (c->fmt == 1) for (i = 0; i < n; i++) yf[i] = s16[i] / 32768.f;
-         if (c->fmt == 2) for (i = 0; i < n; i++) yf[i] = s24[i] / 8388608.f;
+         if (c->fmt == 1) for (i = 0; i < nd; i++) yf[i] = s16[i] / 32768.f;
+         if (c->fmt == 2) for (i = 0; i < nd; i++) yf[i] = s24[i] / 8388608.f;
       }
    }
    free(pkt); free(s16); free(s24);
@@ -302,26 +324,32 @@ static int parse_cfg(char *line, Cfg *c)
    else if (!strcmp(kind, "proj")) { c->kind = 2; c->mapfam = 3; }
    else return 0;
    if (c->ch < 1 || c->ch > MAXCH || c->bw < 0 || c->bw > 5 || c->fmt < 0 || c->fmt > 2 || c->force < 0 || c->force > 3) return 0;
-   if (c->frame < 1 || c->frame > 5760 || c->family < 0 || c->family > 4) return 0;
+   if (c->frame < 1 || c->frame > 5760 || c->family < 0 || c->family > 4 || c->stereo < 0 || c->stereo > 4 || c->aux < 0) return 0;
+   c->fc = c->aux % 10; c->dch = c->aux / 10 % 10; c->gainopt = c->aux / 100 % 10; c->fec = c->aux / 1000 % 10;
+   c->alt = c->aux / 10000 % 10; c->sig = c->aux / 100000 % 10;
+   if (c->fc > 2 || c->dch > 2 || c->gainopt > 2 || c->fec > 2 || c->alt > 3 || c->sig > 2 || c->aux >= 1000000) return 0;
+   if (c->kind != 0 && (c->fc || c->dch || c->alt)) return 0;      /* single-stream options */
+   if (c->dch == 0) c->dch = c->ch;
    return 1;
 }
 
 static void run_rt(char *line)
 {
-   Cfg c; Codec k; int la = 0, err, nfr, N, i, j, ch, modes[3] = {0, 0, 0}, maxbw = 0; long bytes = 0;
-   float *x, *y; double *mono, *xs[MAXCH], *ys[MAXCH];
+   Cfg c; Codec k; int la = 0, err, nfr, N, i, j, ch, dch, modes[3] = {0, 0, 0}, maxbw = 0; long bytes = 0;
+   float *x, *y; double *mono, *xs[MAXCH], *ys[MAXCH], *rf[MAXCH];
    { char *e = line + strlen(line); while (e > line && (e[-1] == '\n' || e[-1] == '\r')) *--e = 0; }
    printf("I %s\n", line);
    if (!parse_cfg(line, &c)) { printf("O BADCFG\n"); return; }
    fflush(stdout);
    err = codec_open(&c, &k, &la);
    if (err) { printf("O ERR open %s\n", verr(err)); codec_close(&k); return; }
-   ch = c.ch;
+   ch = c.ch; dch = c.dch;
    nfr = (int)ceil(0.75 * c.Fs / c.frame); if (nfr < 4) nfr = 4;
    N = nfr * c.frame;
-   x = (float *)calloc((size_t)N * ch, sizeof(float)); y = (float *)calloc((size_t)N * ch, sizeof(float));
+   x = (float *)calloc((size_t)N * ch, sizeof(float)); y = (float *)calloc((size_t)N * (dch > ch ? dch : ch), sizeof(float));
    mono = (double *)malloc(sizeof(double) * N);
-   for (j = 0; j < ch; j++) { xs[j] = (double *)malloc(sizeof(double) * N); ys[j] = (double *)malloc(sizeof(double) * N); }
+   for (j = 0; j < MAXCH; j++) xs[j] = ys[j] = rf[j] = 0;
+   for (j = 0; j < (ch > dch ? ch : dch); j++) { xs[j] = (double *)malloc(sizeof(double) * N); ys[j] = (double *)malloc(sizeof(double) * N); rf[j] = (double *)malloc(sizeof(double) * N); }
    /* input signals */
    {
       double fmax = fmax_of(&c);
@@ -336,6 +364,7 @@ static void run_rt(char *line)
          } else {
             double g = urange(&r, 0.25, 1.0); int d = c.stereo == 3 ? 1 + (int)vbelow(&r, (uint32_t)(c.Fs / 1000)) : 0;
             if (c.stereo == 2) g = -g;
+            if (c.stereo == 4) g = 1.0;
             for (i = 0; i < N; i++) xs[j][i] = i >= d ? g * xs[0][i - d] : 0;
          }
       }
@@ -348,17 +377,23 @@ static void run_rt(char *line)
    }
    err = roundtrip(&c, &k, x, y, nfr, modes, &maxbw, &bytes);
    if (err) { printf("O ERR codec %s\n", err == -100 ? "SHORT_DECODE" : verr(err)); goto done; }
-   for (j = 0; j < ch; j++) for (i = 0; i < N; i++) ys[j][i] = y[(long)i * ch + j];
+   for (j = 0; j < dch; j++) for (i = 0; i < N; i++) ys[j][i] = y[(long)i * dch + j];
+   {  /* the reference each output channel is compared with: its own input channel; the down-mix for a mono decoder of a
+         stereo stream; the single input for a stereo decoder of a mono stream; scaled by the configured decoder gain */
+      double gl = c.gainopt == 1 ? 1.9952623 : c.gainopt == 2 ? 0.5011872 : 1.0;
+      for (j = 0; j < dch; j++) for (i = 0; i < N; i++)
+         rf[j][i] = gl * (dch == ch ? xs[j][i] : dch == 1 ? 0.5 * (xs[0][i] + xs[1][i]) : xs[0][i]);
+   }
    printf("O OK la=%d modes=%d/%d/%d bw=%d kbps=%.1f", la, modes[0], modes[1], modes[2], maxbw, bytes * 8.0 * c.Fs / ((double)N * 1000.0));
    {
       int a = (int)(0.2 * c.Fs), W = 3 * c.Fs / 1000, b = N - la - W - 1, L;
       if (b - a < c.Fs / 4) a = b - c.Fs / 4;
       if (a < W) a = W;
       L = b - a;
-      for (j = 0; j < ch; j++) {
+      for (j = 0; j < dch; j++) {
          double Exx = 0, Eyy = 0, Exy = 0, Eee = 0, best = -1e300, cm = 0, cp = 0, c0 = 0, frac = 0; int bl = 0, l, lo = -W, hi = W, bnd;
          double Ex[NBANDS], Ey[NBANDS];
-         const double *X = xs[j] + a, *Y = ys[j] + a + la;
+         const double *X = rf[j] + a, *Y = ys[j] + a + la;
          for (i = 0; i < L; i++) { double u = X[i], v = Y[i]; Exx += u * u; Eyy += v * v; Exy += u * v; Eee += (v - u) * (v - u); }
          if (lo < -(a + la)) lo = -(a + la);
          for (l = lo; l <= hi; l++) { double s = 0; for (i = 0; i < L; i++) s += X[i] * Y[i + l]; if (s > best) { best = s; bl = l; } }
@@ -376,7 +411,7 @@ static void run_rt(char *line)
               else printf("%s-", bnd ? "," : "");
            } }
          /* channel matrix row: projection of output j on every input */
-         if (ch > 1) {
+         if (ch > 1 && dch == ch) {
             int m; printf(" row=");
             for (m = 0; m < ch; m++) {
                double sxy = 0, sxx = 0; const double *Xm = xs[m] + a;
@@ -397,7 +432,7 @@ static void run_rt(char *line)
 done:
    codec_close(&k);
    free(x); free(y); free(mono);
-   for (j = 0; j < ch; j++) { free(xs[j]); free(ys[j]); }
+   for (j = 0; j < MAXCH; j++) { free(xs[j]); free(ys[j]); free(rf[j]); }
 }
 
 /* ------------------------------------------------------------------ lookahead table */
